@@ -201,9 +201,10 @@ def pools(seed):
     A = univ.alphabet(univ.BASE3, seed)
     a0, a1, a2 = A
     q1 = (a0, a1, a2)
-    pool1 = [(a0, a1, a2), (a0, a1, a1), (a0, a0, a2), (a2, a1), (a1, a1, a2, a2), (a0, a2)]
+    # lengths differ from the query by 0, 1 and 2 (a candidate may be shorter or longer than the query by more than the window)
+    pool1 = [(a0, a1, a2), (a0, a1, a1), (a0, a0, a2), (a1,), (a1, a1, a2, a2), (a0, a2)]
     q2 = (a1, a0)
-    pool2 = [(a1, a0), (a1, a1), (a0, a0, a0), (a2, a0, a1), (a1,)]
+    pool2 = [(a1, a0), (a1, a1), (a0, a0, a0), (a2, a0, a1, a1), (a1,)]
     return [(q1, pool1), (q2, pool2)]
 
 
@@ -298,7 +299,7 @@ def run(ctx):
         rule='E1: every candidate list of 1..%d series drawn with repetition (hence in every order) from pools built to create ties and duplicates x window x penalty x psi x every max_dist/max_value '
              'threshold class x use_lb x engine x every k in 1..N+1 and None; E2: every history up to depth %d over {kbest_matches(1|2|3|None), best_match, align(2), kbest_matches_fast(2), reset} on 3 candidate lists, and every depth-2 history on EVERY ordered candidate list of length 3 over the pools (use_lb on); '
              'non-trivial = a threshold excludes a candidate or k < N / history length >= 2' % (5 if ctx.thorough else 4, 4 if ctx.thorough else 3),
-        bounds={'pools': '2 univariate pools (6 and 5 series, lengths 1..4) and one 2-dimensional pool', 'thresholds': 'None, between best and 2nd best, a middle gap, above all, below all; as max_dist and as max_value; equal to the smallest two exactly representable distances (max_dist only); max_dist and max_value together, either one the tighter'},
+        bounds={'pools': '2 univariate pools (6 and 5 series, lengths 1..4, differing from the query length by up to 2) and one 2-dimensional pool', 'thresholds': 'None, between best and 2nd best, a middle gap, above all, below all; as max_dist and as max_value; equal to the smallest two exactly representable distances (max_dist only); max_dist and max_value together, either one the tighter'},
         assumptions=['reference = sorted exhaustive reference DTW distances; indices are compared up to ties (a reported index must have the reported distance)',
                      'thresholds are placed in gaps between distinct distances, or exactly ON a distance where that distance is a small dyadic rational (its square is exactly the accumulated cost, so <= is decided without rounding); never within rounding distance otherwise'],
         t0=ctx.t0)
